@@ -367,6 +367,20 @@ def execute(trace, ctx):
     mt_atoms = [(a.name, a.resname, a.resid) for a in mt]
     if mt_atoms != truth["atoms"]:
         ctx.violate(P, "moleculetop-atoms", "MoleculeTop atoms differ from the file's atom records")
+    # residue labels as the topology reports them: runs of equal (name, number)
+    runs = []
+    for (an, rn, ri) in truth["atoms"]:
+        if runs and runs[-1][0] == (rn, ri):
+            runs[-1][1] += 1
+        else:
+            runs.append([(rn, ri), 1])
+    try:
+        if list(mt.resnames) != [r[0][0] for r in runs] or list(mt.resids) != [r[0][1] for r in runs] or \
+                [tuple(x) for x in mt.resname_len_list] != [(r[0][0], r[1]) for r in runs]:
+            ctx.violate(P, "residue-labels", f"resnames / resids / resname_len_list = {list(mt.resnames)[:6]} / {list(mt.resids)[:6]} / "
+                                             f"{list(mt.resname_len_list)[:6]}; the file's residue runs are {[(r[0], r[1]) for r in runs][:6]}")
+    except Exception as e:
+        ctx.violate(P, "residue-labels", f"reading resnames / resids / resname_len_list raised {type(e).__name__}: {e}")
     got_edges = {frozenset(b) for b in bonds}
     if any(len(e) != 2 for e in got_edges) or got_edges != truth["edges"]:
         missing = sorted(tuple(sorted(e)) for e in truth["edges"] - got_edges)[:5]
